@@ -346,6 +346,21 @@ MUTANTS = [
          old="                self.compile_chain(chain_node, pipe_register, None, None, call_context)?;\n            }", new="                return self.compile_chain(chain_node, pipe_register, None, None, call_context);\n            }", expect="V-codegen::Compiler::compile_piped_call::"),
     dict(name="codegen_pipe_value_not_piped", kind="break", prop="C01", units=["V-codegen"], file="crates/bytecode/src/compiler.rs",
          old="                self.compile_call(function_register, &[], pipe_register, None, call_context)?;\n                if function.is_temporary {", new="                self.compile_call(function_register, &[], None, None, call_context)?;\n                if function.is_temporary {", expect="V-codegen::Compiler::compile_piped_call::piped_value_first_then_the_call_into_the_result_register"),
+    dict(name="codegen_yield_not_type_checked", kind="break", prop="C16", units=["V-codegen"], file="crates/bytecode/src/compiler.rs",
+         old="        self.compile_check_output_type(expression_register, Some(yield_node), ctx)?;\n        self.push_op(Op::Yield, &[expression_register]);", new="        self.push_op(Op::Yield, &[expression_register]);", expect="V-codegen::Compiler::compile_yield::value_checked_then_yielded"),
+    dict(name="codegen_yield_checked_after_yielding", kind="break", prop="C16", units=["V-codegen"], file="crates/bytecode/src/compiler.rs",
+         old="        self.compile_check_output_type(expression_register, Some(yield_node), ctx)?;\n        self.push_op(Op::Yield, &[expression_register]);", new="        self.push_op(Op::Yield, &[expression_register]);\n        self.compile_check_output_type(expression_register, Some(yield_node), ctx)?;", expect="V-codegen::Compiler::compile_yield::value_checked_then_yielded"),
+    dict(name="codegen_return_checked_in_generators_only", kind="break", prop="C16", units=["V-codegen"], file="crates/bytecode/src/compiler.rs",
+         old="        let check_return_type = !self.frame().is_generator;", new="        let check_return_type = self.frame().is_generator;", expect="V-codegen::Compiler::compile_return::"),
+    dict(name="codegen_return_fixed_returns_the_unchecked_copy_source", kind="break", prop="C01", units=["V-codegen"], file="crates/bytecode/src/compiler.rs",
+         old="                    self.push_op(Copy, &[result, expression_register]);\n                    self.push_op(Return, &[result]);", new="                    self.push_op(Return, &[result]);\n                    self.push_op(Copy, &[result, expression_register]);", expect="V-codegen::Compiler::compile_return::value_checked_then_returned"),
+    dict(name="codegen_bare_return_unchecked", kind="break", prop="C16", units=["V-codegen"], file="crates/bytecode/src/compiler.rs",
+         old="""                    self.push_op(SetNull, &[result_register]);
+                    if check_return_type {
+                        self.compile_check_output_type(result_register, None, ctx)?;
+                    }""", new="""                    self.push_op(SetNull, &[result_register]);""", expect="V-codegen::Compiler::compile_return::bare_return_returns_null"),
+    dict(name="codegen_output_type_check_ignores_declared_type", kind="break", prop="C16", units=["V-codegen"], file="crates/bytecode/src/compiler.rs",
+         old="        if let Some(output_type) = self.frame().output_type {\n            self.compile_assert_type(register, output_type, span, ctx)?;\n        }", new="        if let Some(output_type) = self.frame().output_type {\n            let _ = (register, output_type, span, ctx);\n        }", expect="V-codegen::Compiler::compile_check_output_type::declared_output_type_asserted"),
     # ---- V-adaptors2
     dict(name="chunks_f35_capacity_is_the_chunk_size", kind="break", prop="C06", units=["V-adaptors2"], file="crates/runtime/src/core_lib/iterator/adaptors.rs",
          old=".get_or_insert_with(|| Vec::with_capacity(capacity))", new=".get_or_insert_with(|| Vec::with_capacity(self.chunk_size))", expect="V-adaptors2::Chunks::next::chunk_buffer_allocatable"),
